@@ -157,6 +157,8 @@ def main(argv):
         results = list(ex.map(lambda n: run_one(cdir, n, all_h[n], cfg, tier), names))
 
     inconclusive, violations, notes = [], [], []
+    unreachable = []
+    unsat_covers, sat_covers = [], set()
     obligations = discharged = 0
     functions = set()
     solver_time = 0.0
@@ -187,7 +189,9 @@ def main(argv):
             inconclusive.append('%s: unwinding bound too small' % name)
         for lab, c in pr['covers'].items():
             if not c['sat']:
-                inconclusive.append('%s: cover %s unsatisfiable (vacuous harness?)' % (name, lab))
+                unsat_covers.append((name, lab))
+            else:
+                sat_covers.add(lab)
         if twin:
             ok = any(v['verdict'] == 'violated' for k, v in pr['obligations'].items() if k.endswith('must_fail'))
             ph['twin_reached'] = ok
@@ -201,7 +205,10 @@ def main(argv):
                 if len(samples) < 6:
                     samples.append({'harness': name, 'obligation': lab, 'verdict': 'holds for every input (unsat)',
                                     'backend': res['backend']})
-            elif o['verdict'] in ('unreachable', 'undetermined'):
+            elif o['verdict'] == 'unreachable':
+                obligations -= 1
+                unreachable.append((name, lab))
+            elif o['verdict'] == 'undetermined':
                 inconclusive.append('%s: obligation %s %s' % (name, lab, o['verdict']))
         todo = [(lab, o['pid']) for lab, o in sorted(pr['obligations'].items()) if o['verdict'] == 'violated']
         for imp in pr['implicit']:
@@ -226,6 +233,27 @@ def main(argv):
                 notes.append({'harness': name, 'obligation': lab, 'witness': rv.get('witness'), 'attempts': rv.get('attempts')})
         if len(todo) > 6:
             notes.append({'harness': name, 'more_violated': [l for l, _ in todo[6:]]})
+
+    # vacuity: an obligation that is statically present but unreachable in one instance of a shared
+    # harness body is tolerated only if (a) the same label is reachable in another harness of this run
+    # and (b) the harness itself reaches at least one obligation
+    reach_labels = set()
+    reach_harness = set()
+    for res in results:
+        if res['status'] != 'done':
+            continue
+        for lab, o in res['parsed']['obligations'].items():
+            if o['verdict'] in ('holds', 'violated'):
+                reach_labels.add(lab)
+                reach_harness.add(res['name'])
+    for name, lab in unsat_covers:
+        if lab not in sat_covers:
+            inconclusive.append('%s: cover %s unsatisfiable in every harness (vacuous?)' % (name, lab))
+    for name, lab in unreachable:
+        if lab not in reach_labels:
+            inconclusive.append('%s: obligation %s unreachable in every harness (vacuous)' % (name, lab))
+        elif name not in reach_harness:
+            inconclusive.append('%s: no obligation reachable (vacuous harness)' % name)
 
     # glue / model validation: the same harness bodies run natively on random inputs must agree
     nrand = cfg.get('native_samples', {}).get(tier, 400 if tier == 'quick' else 5000)
